@@ -17,6 +17,11 @@ GEN_AUDIT += ["Dashu.Audit.GenFloatOps", "Dashu.Audit.GenFloatAdd"]
 # Tie A, typed translator: the by-reference operator forms `FBig ± &FBig`, `&FBig ± &FBig` regenerated from float/src/add.rs
 GEN_PROPS += ["Dashu.Props.GenFloatForms"]
 GEN_AUDIT += ["Dashu.Audit.GenFloatForms"]
+# Tie A, typed translator (round 5): `Context::mul/sqr/cubic`, `repr_div`, `Context::div/inv` and the operator impls
+# `FBig * FBig` (4 forms), `FBig / FBig` (4 forms), `FBig::sqr/cubic`, `Inverse for FBig/&FBig` regenerated from
+# float/src/{mul,div}.rs and proved equal to the model functions the driver runs
+GEN_PROPS += ["Dashu.Props.GenFloatArith"]
+GEN_AUDIT += ["Dashu.Audit.GenFloatArith"]
 
 # ----------------------------------------------------------------------------- known-finding predicates
 # (called from known_findings.jsonl `py` conditions; each describes the input class of one defect,
@@ -71,6 +76,10 @@ def kf_long_operand(op, args):
 
 def pick(rng):
     B = rng.choice(BASES); m = rng.choice(MODES); p = rng.choice(PRECS + [1, 2, 3, 5])
+    if rng.random() < 0.15:
+        # addendum E2: every precision 1..130 (so that ties / carries / k^2+-1 occur at operands of EVERY digit length,
+        # in particular around the word sizes 32/64/128 bits of the significand)
+        p = rng.randrange(1, 131)
     return B, m, p
 
 def gaps(rng, p, ld, rd):
@@ -235,9 +244,24 @@ def gen_unary(rng, n, ctx_long=False):
                 e = rng.choice([0, 2, -4, 6])
                 if (e - (dS + k)) % 2 != (0 if dS == 2 * p else 1):
                     e += 1
-            elif r < 0.36:
+            elif r < 0.40 and ctx_long:
+                # the Exact flag with discarded low digits (Props/C03 sqrt_exact_flag_iff): S = rt^2 is a perfect square of
+                # 2p-1 or 2p digits (rem == 0) followed by k discarded digits `low` != 0, digit/exponent parity chosen so that
+                # exactly those k digits are split off (shift = -k): must be flagged Inexact in every mode
+                rt = rng.choice([rand_sig(rng, B, p, "random"), B ** (p - 1), B ** p - 1, B ** (p - 1) + 1,
+                                 rand_sig(rng, B, p)])
+                S = rt * rt
+                k = rng.choice([1, 1, 2, 3, 8, p, 2 * p + 1])
+                bk = B ** k
+                low = rng.choice([1, 1, bk - 1, max(bk // 2, 1), max(bk // 4, 1), rng.randrange(1, bk), B ** (k - 1)])
+                s = S * bk + low
+                dS = ndigits(B, S)
+                e = rng.choice([0, 2, -4, 6, -2 * p])
+                if (e - (dS + k)) % 2 != (0 if dS == 2 * p else 1):
+                    e += 1
+            elif r < 0.42:
                 s = -s
-            elif r < 0.40:
+            elif r < 0.46:
                 s = 0; e = 0
         else:
             s *= rng.choice([1, -1])
@@ -252,6 +276,31 @@ def gen_unary(rng, n, ctx_long=False):
             if ndigits(B, normalize(B, s, e)[0]) > p:
                 continue
             yield Case("f." + op, [fenc(B, s, e, p, m)])
+
+def gen_sqrt_allbits(rng, n):
+    """addendum E2 for sqrt: radicands k^2 - 1, k^2, k^2 + 1 for k of EVERY bit length 1..140 (all-ones, power of two,
+    power of two + 1, random) and B^j - 1, B^j, B^j + 1 for every j, at a precision that keeps all digits (f.sqrt), at the
+    precision of the root, and one below / above it (c.sqrt when the operand does not fit)"""
+    for _ in range(n):
+        B = rng.choice(BASES); m = rng.choice(MODES)
+        if rng.random() < 0.75:
+            nb = rng.randrange(1, 141)
+            k = rng.choice([(1 << nb) - 1, 1 << (nb - 1), (1 << (nb - 1)) + 1, rng.randrange(1 << (nb - 1), 1 << nb)])
+            s = k * k + rng.choice([-1, 0, 0, 1])
+        else:
+            j = rng.randrange(1, 80)
+            s = B ** j + rng.choice([-1, 1, 1])
+        if s <= 0:
+            s = 1
+        e = rng.choice([0, 1, -1, 2, -7, 40])
+        s, e = normalize(B, s, e)
+        nd = ndigits(B, s)
+        rootd = (nd + 1) // 2
+        p = max(1, rng.choice([nd, nd + 1, rootd, rootd - 1, rootd + 1, 2 * nd + 3]))
+        if p >= nd and rng.random() < 0.7:
+            yield Case("f.sqrt", [fenc(B, s, e, p, m)])
+        else:
+            yield Case("c.sqrt", [fenc(B, s, e, 0, m), dec(p)])
 
 def gen_unlimited(rng, n):
     """precision 0 = unlimited: both operands unlimited (exact results / UnlimitedPrecision panics), one operand
@@ -283,6 +332,129 @@ def gen_unlimited(rng, n):
             else:
                 yield Case("c." + op, [fenc(B, a, ea, 0, m), dec(0)], nontrivial=False)
 
+UMAX = 2 ** 64 - 1
+def extreme_precisions():
+    """ROUND4 addendum E1 for the `usize` precision of Context methods / FBig contexts: W-1, W, W+1, 2W, 2^31, 2^32-1,
+    2^32, 2^32+k, 2^63, the overflow boundaries of `2*p` / `3*p`, usize::MAX-k (k = 0..130)"""
+    return ([63, 64, 65, 128, 2 ** 31, 2 ** 32 - 1, 2 ** 32, 2 ** 62 - 1, 2 ** 62, 2 ** 63 - 1, 2 ** 63, 2 ** 63 + 1,
+             UMAX // 3 - 1, UMAX // 3, UMAX // 3 + 1, UMAX // 3 + 2, UMAX // 2, UMAX // 2 + 1, UMAX // 2 + 2]
+            + [2 ** 32 + k for k in range(1, 130)] + [UMAX - k for k in range(0, 131)])
+
+def gen_extreme(rng, n):
+    """extreme precisions where the call is cheap (the result does not need memory proportional to p): add/sub/mul/sqr/
+    cubic of short operands (results are exact), div of exact multiples, inv of +-B^e; through the Context methods (c.*)
+    and through FBig contexts (f.*: operators at Context::max).  sqrt/inv/div with a non-terminating result need ~p
+    digits of memory: only precisions < 2^9 are driven there (the other classes)."""
+    EXT = extreme_precisions()
+    for _ in range(n):
+        B = rng.choice(BASES); m = rng.choice(MODES)
+        p = rng.choice(EXT) if rng.random() < 0.8 else rng.choice([UMAX, UMAX - 1, UMAX - 2, 2 ** 63, UMAX // 3 + 1])
+        ld = rng.choice([1, 2, 7, 20, 40]); rd = rng.choice([1, 2, 7, 20, 40])
+        a = rand_sig(rng, B, ld) * rng.choice([1, -1]); b = rand_sig(rng, B, rd) * rng.choice([1, -1])
+        ea = rng.choice([0, 3, -5, 60])
+        # exponent gaps on both sides of `digits_ub(small) + 1 < ediff` (the guard in front of the sum that overflows)
+        eb = ea - rng.choice([0, 0, 1, 2, rd, rd + 1, rd + 2, rd + 3, rd + 6, 50, 200])
+        if rng.random() < 0.06:
+            a = 0; ea = 0
+        elif rng.random() < 0.06:
+            b = 0; eb = 0
+        x, y = (a, ea), (b, eb)
+        if rng.random() < 0.5:
+            x, y = y, x
+        op = rng.choice(["add", "sub", "add", "sub", "mul", "sqr", "cubic", "div", "inv", "sqrt"])
+        ctx = rng.random() < 0.6
+        if op == "sqrt":
+            # sqrt at p >= 2^62 returns at once (`precision as isize * 2` overflows or is negative): perfect squares (the
+            # exact root is required), non-squares, zero, negative; below 2^62 a large p needs ~2p digits of memory
+            p = rng.choice([2 ** 62, 2 ** 62 + 1, 2 ** 63 - 1, 2 ** 63, 2 ** 63 + 1, UMAX - 2 ** 62 - 1, UMAX - 2 ** 62,
+                            UMAX - 2 ** 62 + 1] + [UMAX - k for k in (0, 0, 1, 2, 3, 64, 130)])
+            w = rand_sig(rng, B, rng.choice([1, 1, 2, 9]))
+            sq = rng.choice([w * w, w * w, w * w + 1, w, 0, -w * w, 1, B])
+            x = normalize(B, sq, rng.choice([0, 2, -4, 1, -3, 60]))
+        if op == "div":
+            if y[0] == 0:
+                y = (1, y[1])
+            # exact multiple whose normalised significand is still a multiple of the divisor's (first div_rem leaves no
+            # remainder: the only division that does not need ~p digits of memory)
+            q = rand_sig(rng, B, rng.choice([1, 3, 10])) * rng.choice([1, -1, 0])
+            while q != 0 and (y[0] * q) % B == 0:
+                q += 1
+            x = normalize(B, y[0] * q, x[1])
+        if op == "inv":
+            x = (rng.choice([1, -1]), rng.choice([0, 1, -7, 40]))
+        if op in ("sqr", "cubic", "inv", "sqrt"):
+            if ctx:
+                yield Case("c." + op, [fenc(B, x[0], x[1], 0, m), dec(p)])
+            else:
+                yield Case("f." + op, [fenc(B, x[0], x[1], p, m)])
+        elif ctx:
+            yield Case("c." + op, [fenc(B, x[0], x[1], 0, m), fenc(B, y[0], y[1], 0, m), dec(p)])
+        else:
+            pa, pb = rng.choice([(p, p), (p, max(ndigits(B, y[0]), 1)), (max(ndigits(B, x[0]), 1), p), (p, rng.choice(EXT))])
+            yield Case("f." + op, [fenc(B, x[0], x[1], pa, m), fenc(B, y[0], y[1], pb, m)])
+
+IMIN, IMAX = -2 ** 63, 2 ** 63 - 1
+def gen_sqrt_exponents(rng, n):
+    """addendum E1 for the `isize` exponent of the operand of sqrt (the result's exponent is about half of it, so it is
+    always representable): isize::MIN + k (k = 0 .. 2p+6: `exponent - digits` and `exponent - shift` of root.rs underflow
+    there), isize::MAX - k, +-2^62, +-2^32, +-2^20 and neighbours; perfect squares and random radicands of 1..3p digits"""
+    for _ in range(n):
+        B = rng.choice(BASES); m = rng.choice(MODES); p = rng.choice([1, 2, 3, 5, 8, 24])
+        d = rng.choice([1, 1, 2, p, max(1, p - 1), 2 * p, 2 * p + 1, 3 * p])
+        if rng.random() < 0.4:
+            k = rand_sig(rng, B, max(1, (d + 1) // 2)); s = k * k
+        else:
+            s = rand_sig(rng, B, d)
+        e = rng.choice([IMIN + rng.randrange(0, 2 * p + 7), IMIN + rng.randrange(0, 2 * p + 7), IMIN, IMIN + 1,
+                        IMAX - rng.randrange(0, 7), IMAX - rng.randrange(0, 3 * p + 4), 2 ** 62, -2 ** 62, 2 ** 62 + 1, -2 ** 62 - 1,
+                        2 ** 32, -2 ** 32 - 1, 2 ** 20, -2 ** 20 - 1, 2 ** 31 - 1, -2 ** 31])
+        s, e = normalize(B, s, e)
+        if not (IMIN <= e <= IMAX):
+            continue
+        if ndigits(B, s) <= p and rng.random() < 0.7:
+            yield Case("f.sqrt", [fenc(B, s, e, p, m)])
+        else:
+            yield Case("c.sqrt", [fenc(B, s, e, 0, m), dec(p)])
+
+def kf_sqrt_exponent_overflow(args):
+    """`x.exponent - digits` (parity test) or `x.exponent - shift` (result exponent) of Context::sqrt leaves the isize range,
+    shift = 2p - digits - ((exponent - digits) & 1): exponents within ~2p of isize::MIN (and within digits - 2p of
+    isize::MAX for over-long operands); the true result exponent (about half) is representable"""
+    B, sg, e, pf, m = fdec(args[0])
+    p = int(args[1][2:]) if len(args) > 1 else pf
+    if p == 0 or p >= 2 ** 62 or sg < 0:
+        return False
+    d = ndigits(B, sg)
+    if not (IMIN <= e - d <= IMAX):
+        return True
+    shift = 2 * p - d - ((e - d) & 1)
+    return not (IMIN <= e - shift <= IMAX)
+
+def kf_precision_overflow(kind, args, impl):
+    """`usize` arithmetic on the precision overflows (debug build: `attempt to add/multiply with overflow`; release build:
+    wraps - operands pre-shrunk to the wrapped length / the far-apart branch taken wrongly):
+    kind "mul" (mul, sqr): `2 * precision` (p > usize::MAX/2); "cubic": `3 * precision` (p > usize::MAX/3);
+    "add" (add, sub): `precision + is_sub` and `digits_ub(small) + 1 + rnd_precision` (add.rs); "div" (div, inv):
+    `digits_lb(rhs) + precision` and the debug assertion `precision + rhs.digits()` (div.rs) - precision within a digit
+    count of usize::MAX; the f32 estimate in that sum is pinned down by the site of the overflow the implementation reports."""
+    import re
+    p = _p("c." if args[-1].startswith("d:") else "f.", args)
+    if kind == "mul":
+        return p > UMAX // 2
+    if kind == "cubic":
+        return p > UMAX // 3
+    if kind == "add":
+        return p >= UMAX - 2 ** 20 and re.search(r"float/src/add\.rs:\d+\|attempt_to_add_with_overflow", impl) is not None
+    if kind == "div":
+        return p >= UMAX - 2 ** 20 and re.search(r"float/src/div\.rs:\d+\|attempt_to_add_with_overflow", impl) is not None
+    if kind == "sqrt":
+        # `self.precision as isize * 2` (root.rs): overflows for 2^62 <= p < 2^64 - 2^62 (debug panic / release wrap) and is
+        # NEGATIVE above (all digits are split off as `low`, the root of 0 is returned flagged Inexact); only sqrt(0) at
+        # p > 2^64 - 2^62 still comes out right (at p = 2^64 - 2^62 the shift is isize::MIN and `-shift` overflows)
+        sg = fdec(args[0])[1]
+        return p >= 2 ** 62 and sg >= 0 and not (sg == 0 and p > 2 ** 64 - 2 ** 62)
+    return False
+
 def generate(rng, tier):
     k = 1 if tier == "quick" else 80
     yield from gen_addsub(rng, 2600 * k)
@@ -292,6 +464,9 @@ def generate(rng, tier):
     yield from gen_muldiv(rng, 400 * k, ctx_long=True)
     yield from gen_unary(rng, 400 * k, ctx_long=True)
     yield from gen_unlimited(rng, 200 * k)
+    yield from gen_extreme(rng, 700 * k)
+    yield from gen_sqrt_allbits(rng, 500 * k)
+    yield from gen_sqrt_exponents(rng, 300 * k)
 
 def nontrivial(c):
     return True
@@ -306,24 +481,56 @@ RULE = ("modes x bases {2,3,10,16,36} x p in {1,2,3,5,8,24,53,100}; add/sub oper
         "around 1/4 and 1/2 of the scale, negative, zero; sqr/cubic/inv; the "
         "same through the Context methods with operands longer than p, 2p, 3p digits (c.* ops); unlimited precision: both operands "
         "unlimited, one unlimited operand longer than the other's precision (operators at Context::max), Context precision 0. f.* cases run the "
-        "Context method and all operator/method forms. distinct := distinct (op,args).")
+        "Context method and all operator/method forms. sqrt Exact-flag class: perfect-square prefix of 2p-1/2p digits followed by k in "
+        "{1,2,3,8,p,2p+1} discarded digits {1, B^k-1, B^k/2, B^k/4, B^(k-1), random} with the parity that splits exactly those off. "
+        "Extreme precisions (addendum E1): p in {63,64,65,128,2^31,2^32-1,2^32,2^32+k (k<130),2^62-1,2^62,2^63-1,2^63,2^63+1, "
+        "usize::MAX/3 +-1, usize::MAX/2 +-1, usize::MAX-k (k=0..130)} for c.*/f.* add, sub, mul, sqr, cubic (short operands, exponent "
+        "gaps on both sides of digits_ub+1), div of exact multiples, inv of +-B^e, and sqrt at p >= 2^62 (perfect squares, "
+        "non-squares, zero, negative) - every call that does not need memory proportional to p. Addendum E2: 15 % of all cases at a "
+        "precision drawn from 1..130; sqrt of k^2-1, k^2, k^2+1 for k of every bit length 1..140 and of B^j-1, B^j, B^j+1 (j < 80) at "
+        "the precision of the operand, of the root, and one beside it; sqrt with the operand's isize exponent in {MIN+k (k <= 2p+6), "
+        "MAX-k, +-2^62, +-2^32, +-2^31, +-2^20} (model side through the scale invariance of sqrt). distinct := distinct (op,args).")
 REFINED = ["Context::repr_round", "Context::mul/sqr/cubic (operands <= 2p/3p digits; all operands without the pre-shrink)", "FBig * FBig",
            "Context::repr_div / div (dividend <= rhs.digits+p) / inv, div_align", "Round::round_ratio",
-           "Context::sqrt (scaling + sqrt_rem rounding + half test)",
+           "Context::sqrt (scaling + sqrt_rem rounding + half test); its Exact flag = (rem = 0 and discarded low digits = 0) "
+           "(sqrt_exact_flag_iff)",
+           "Tie A (round 5, Props/GenFloatArith): float/src/mul.rs and div.rs regenerated as typed Lean text - Context::mul/sqr/"
+           "cubic, repr_div, Context::div (own pre-shrink decision on digits_lb/digits_ub), Context::inv, FBig*FBig x4 forms, "
+           "FBig/FBig x4 forms (impl_div_or_rem_for_fbig!), FBig::sqr/cubic, Inverse for FBig/&FBig - each proved equal, for all "
+           "inputs, to the model function the driver runs; the contract restated on the regenerated text "
+           "(regenerated_repr_div_contract / _inv_ / _mul_)",
            "Context::add / sub for operands that fit p: repr_add_large_small / repr_add_small_large (4 alignment branches), "
            "repr_round_sum (3 re-alignment branches)"]
 FRONTIER = ["UBig::sqrt_rem: a parameter with its C12 contract (SqrtRemOk); Props/C03Link composes Context::sqrt with builder-nt's mirrored "
             "sqrtRemRepr (whose word/double-word primitive and Karatsuba kernel are frontier in C12) and proves it equal to the Nat.sqrt "
             "instance the driver runs",
             "f32 estimate digits_ub / digits_lb: parameters with enclosure hypotheses (see C10: Props/C10Est, C10EstNoStd; driver "
-            "replica checked on every operand)"]
+            "replica checked on every operand)",
+            "Context::sqrt body (float/src/root.rs): hand-mirrored (ctxSqrt/sqrtScale/sqrtRound), tied by correspondence and the "
+            "regenerated prologue (Gen/FloatGuards guard_Context_sqrt) only - the typed translator has no reading of the "
+            "`as isize` casts, `& 1` and the `round_low_part` closure yet, so no Tie A text for it",
+            "machine-integer width of the precision: the model's precision is a Nat; the usize/isize overflows of the code for "
+            "precisions near usize::MAX (2*p, 3*p, p+1, digits+p, `p as isize * 2`) are NOT mirrored - they are recorded findings "
+            "(known_findings.jsonl, proposed_fixes/float-precision-usize-overflow.diff); theorems quantify over all p >= 1 for the "
+            "model, i.e. they describe the code only below those overflow thresholds (hypothesis `2p <= usize::MAX` of "
+            "regenerated_mul_contract, `digits <= usize::MAX` of context_mul_is_model)",
+            "clause `|r - x| < 1 ulp` for Context methods on Reprs longer than the working length: only `_partial` / "
+            "`*_contract_outside_region` theorems (the code violates the clause inside the regions: counterexample theorems)"]
 THEOREMS = ["Dashu.Props.C03." + t for t in (
     "mul_operator_contract mul_contract_partial mul_preshrink_counterexample sqr_contract_partial cubic_contract_partial "
     "add_sub_contract add_sub_far_contract round_sum_contract operators_add_sub div_contract ctx_div_contract_partial inv_contract "
     "div_panics sqrt_contract sqrt_panics representable_exact add_sub_representable_exact div_representable_exact "
     "sqrt_representable_exact repr_round_digits mul_sqr_cubic_digits sqrt_digits add_sub_digits div_digits "
     "mul_contract_outside_region div_contract_outside_region add_sub_contract_outside_region div_preshrink_counterexample "
-    "add_guard_digit_counterexample").split()] + ["Dashu.Props.C03Link.sqrt_contract_over_sqrt_rem", "Dashu.Props.C03Link.kernels_agree"]
+    "add_guard_digit_counterexample sqrt_exact_flag_iff sqrt_discarded_low_inexact").split()] + [
+    "Dashu.Props.C03Link.sqrt_contract_over_sqrt_rem", "Dashu.Props.C03Link.kernels_agree",
+    "Dashu.Props.C03Link.sqrt_exact_flag_over_sqrt_rem"] + [
+    "Dashu.Props.GenFloatArith." + t for t in (
+    "context_mul_is_model context_sqr_is_model context_cubic_is_model mul_ref_ref_is_model mul_val_ref_is_model "
+    "mul_ref_val_is_model mul_val_val_is_model mul_forms_agree repr_div_is_model context_div_is_model context_inv_is_model "
+    "div_val_val_is_model div_ref_val_is_model div_val_ref_is_model div_ref_ref_is_model div_operator_eq_context_div "
+    "inv_val_is_model inv_ref_is_model fbig_sqr_is_model fbig_cubic_is_model regenerated_repr_div_contract "
+    "regenerated_inv_contract regenerated_mul_contract").split()]
 EXPLANATION = ("Lean theorems over Rat for every base >= 2, precision >= 1, mode and operand: repr_round satisfies the rounding contract; "
                "mul/sqr/cubic follow from it (operands up to 2p/3p digits, i.e. all that fit p); add/sub for ALL operands that fit p - "
                "zero operands, equal exponents and the four alignment branches (far-apart with the sticky stand-in, two splitting "
@@ -344,13 +551,17 @@ LEVEL_TEXT = ("Machine-checked Lean 4 theorems (all bases, precisions, modes, op
               "inv, sqrt, sqr and cubic of the mirrored model honour the rounding contract stated over Rat (Exact iff equal; otherwise "
               "< 1 ulp, <= 1/2 ulp for the nearest modes; side condition of the directed modes; AddOne/SubOne tell the side), on top of "
               "the mode tables regenerated from float/src/round.rs; every model result of the correspondence run is additionally "
-              "checked against an executable form of the contract in exact rational arithmetic. The hand-written model is tied to "
-              "/repo by differential execution over operands built from every branch condition, all call forms (Context methods and "
-              "six operator forms).")
+              "checked against an executable form of the contract in exact rational arithmetic. The model is tied to /repo twice: the bodies of "
+              "float/src/{repr,add,mul,div}.rs (repr_round, repr_round_sum, both alignment routines, Context::add/sub/mul/sqr/cubic/"
+              "repr_div/div/inv and every FBig operator form of + - * /, sqr, cubic, inv) are regenerated from the Rust source on "
+              "every run and proved equal to the model functions (a semantic edit there breaks a Lean build), and all of it - "
+              "including the hand-mirrored Context::sqrt - by differential execution over operands built from every branch "
+              "condition, all call forms (Context methods and six operator forms) and extreme usize precisions.")
 LEVEL_NOTE = ("Trusted: Lean kernel; axioms propext/Classical.choice/Quot.sound; correspondence harness + generators (sampling) for the "
               "hand-written model; integer kernels at their specifications. Defects found here and repaired in /repo (sqrt double "
               "rounding and Exact flag 92fc29e, base-2 far-apart addition tie 0d97e26, sub from zero d197d6e) stay as regression "
               "cases in corpus/C03; the remaining ones (pre-shrink double rounding in mul/sqr/cubic/div and deep cancellation in "
-              "add/sub, all only for Reprs longer than the working length, i.e. outside `operands that fit p`) are recorded in "
+              "add/sub, all only for Reprs longer than the working length, i.e. outside `operands that fit p`; and the usize/isize "
+              "overflows of the precision arithmetic for precisions near usize::MAX, found in round 5) are recorded in "
               "known_findings.jsonl.")
 TECHNIQUE = "Lean 4 proofs over a mirrored model + executable rational contract check + differential correspondence"
